@@ -295,6 +295,8 @@ class Case:
             else:
                 args += ['"%s"' % n for n in l['sel']]
             return 'wire.Struct(%s)' % ', '.join(args)
+        if k == 'structlit':
+            return self.gotype(l['s'], frompkg, used) + '{}'
         if k == 'value':
             e = l['expr'] or self.valexpr(l['out'], 'V:' + l['name'], frompkg, used)
             return 'wire.Value(%s)' % e
